@@ -12,7 +12,7 @@ EXPLANATION = ("Deductive: IonSet.__getitem__ (caching, validation, representati
 
 
 def units(tier):
-    return [K.U_IONSET, K.U_EL_GETITEM, K.U_ADD_ISOTOPE, K.U_SYMBOL, K.U_CHANGE_TABLE] + K.U_REDUCE + [K.L_ATOM_IDENTITY, K.U_EL_ISOTOPES] + K.U_TABLE_ISOTOPE + K.U_GET_TABLE + K.U_MAKE
+    return [K.U_IONSET, K.U_EL_GETITEM, K.U_ADD_ISOTOPE, K.U_SYMBOL, K.U_CHANGE_TABLE] + K.U_REDUCE + [K.L_ATOM_IDENTITY, K.U_EL_ISOTOPES] + K.U_TABLE_ISOTOPE + K.U_GET_TABLE + K.U_MAKE + K.U_TABLE_GETITEM + [K.U_TABLE_ITER, K.U_ELEMENT_ITER]
 
 
 def runner_tasks(tier):
